@@ -62,7 +62,9 @@ def main():
                 graphs.append((k, list(es), 'exhaustive'))
     if ck.tier != 'thorough':
         rng.shuffle(graphs)
-        keep = [g for g in graphs if g[0] < 3] + [g for g in graphs if g[0] == 3][:22]
+        # every graph on three libraries with at most two edges (all labelings of chains, fans and single edges: the order in which the map iterates
+        # depends on the names) plus a sample of the denser ones
+        keep = [g for g in graphs if g[0] < 3] + [g for g in graphs if g[0] == 3 and len(g[1]) <= 2] + [g for g in graphs if g[0] == 3 and len(g[1]) > 2][:12]
         graphs = keep
     for _ in range(ck.scale(25, 400)):
         k = rng.choice([4, 5, 6])
@@ -81,6 +83,31 @@ def main():
             # typedef edges cannot be realised without exporting the target class from both libraries (a typedef of a class of
             # another package is exported only under `forcetype`, which also exports the class itself): inheritance edges only
             inherit.append((i, j))
+        # in an acyclic graph every second module uses chains of derived classes: the class of library i that realises the edge i->j derives
+        # from the class of library j that realises j's first edge (Leaf : Mid : Top), so that a library holds only a stub of the class
+        # that carries the next edge
+        def is_acyclic():
+            state = {}
+
+            def visit(u):
+                if state.get(u) == 1:
+                    return False
+                if state.get(u) == 2:
+                    return True
+                state[u] = 1
+                for (a, c) in edges:
+                    if a == u and not visit(c):
+                        return False
+                state[u] = 2
+                return True
+            return all(visit(u) for u in range(k))
+        deep = idx % 2 == 0 and is_acyclic()
+
+        def base_of(j):
+            nxt = [c for (a, c) in edges if a == j]
+            if deep and nxt:
+                return 'D%d_%d' % (j, nxt[0]), 'd%d_%d.h' % (j, nxt[0])
+            return 'B%d' % j, 'base%d.h' % j
         PRE = ['#ifndef CPPPARSER', '#define PUBLISHED public', '#define BEGIN_PUBLISH', '#define END_PUBLISH', '#else',
                '#define PUBLISHED __published', '#define BEGIN_PUBLISH __begin_publish', '#define END_PUBLISH __end_publish', '#endif']
         os.makedirs(root, exist_ok=True)
@@ -97,9 +124,10 @@ def main():
                     continue
                 fn = 'd%d_%d.h' % (i, j)
                 files[i].append(fn)
-                body = ['#ifndef GUARD_D%d_%d' % (i, j), '#define GUARD_D%d_%d' % (i, j)] + PRE + ['#include "base%d.h"' % j]
+                bcls, bhdr = base_of(j)
+                body = ['#ifndef GUARD_D%d_%d' % (i, j), '#define GUARD_D%d_%d' % (i, j)] + PRE + ['#include "%s"' % bhdr]
                 if (i, j) in inherit:
-                    body += ['class D%d_%d : public B%d {' % (i, j, j), 'PUBLISHED:', '  D%d_%d();' % (i, j), '  int extra_%d_%d();' % (i, j), '};']
+                    body += ['class D%d_%d : public %s {' % (i, j, bcls), 'PUBLISHED:', '  D%d_%d();' % (i, j), '  int extra_%d_%d();' % (i, j), '};']
                 else:
                     body += ['BEGIN_PUBLISH', 'typedef B%d T%d_%d;' % (j, i, j), 'END_PUBLISH']
                     # a typedef of a class from another package is exported only when forced by the command file
@@ -120,8 +148,12 @@ def main():
         perms = list(itertools.permutations(range(k))) if k <= 3 else [tuple(range(k)), tuple(reversed(range(k))), tuple(rng.sample(range(k), k))]
         for perm in perms:
             oc = os.path.join(root, 'mod_%s.cxx' % ''.join(map(str, perm)))
-            p = subprocess.run([b['interrogate_module'], '-python-native', '-module', 'mod', '-library', 'mod', '-oc', oc] + [ins[i] for i in perm],
-                               stdout=subprocess.PIPE, stderr=subprocess.PIPE, text=True, timeout=60, cwd=root)
+            try:
+                p = subprocess.run([b['interrogate_module'], '-python-native', '-module', 'mod', '-library', 'mod', '-oc', oc] + [ins[i] for i in perm],
+                                   stdout=subprocess.PIPE, stderr=subprocess.PIPE, text=True, timeout=20, cwd=root)
+            except subprocess.TimeoutExpired:
+                outs.append((perm, 'timeout', [], [], [], False))
+                continue
             libs = re.findall(r'Referencing Library (\w+)', p.stdout)
             text = open(oc).read() if os.path.exists(oc) else ''
             reg = re.findall(r'  Dtool_(\w+)_RegisterTypes\(\);', text.split('#else  // Python 2 case')[0])
@@ -151,6 +183,10 @@ def main():
                       'cmd': 'interrogate -python-native per library; interrogate_module -python-native -oc mod.cxx <.in files>'}
             for perm, rc, libs, reg, defs, circ in outs:
                 rp = dict(replay, command_line_order=[NAMES[i] for i in perm], referencing=libs, register_calls=reg)
+                if rc == 'timeout':
+                    # the model of the loop terminates on every graph (c16_terminates): the tool does not
+                    ck.spec_failure('hang', 'interrogate_module does not terminate (20 s) on a module whose ordering loop terminates in the model', rp)
+                    continue
                 if rc != 0:
                     ck.spec_failure('exit', 'interrogate_module failed (status %d) on loadable databases' % rc, rp)
                     continue
